@@ -40,6 +40,9 @@ type schedReader struct {
 	off   int
 	chunk int // > 0: at most chunk bytes per Read; < 0: a single chunk boundary at offset -chunk
 	env   *mc.Env
+	// eofWithData: the Read that hands over the last bytes returns io.EOF in the same call (n > 0 and io.EOF, as
+	// io.Reader allows and testing/iotest.DataErrReader does)
+	eofWithData bool
 }
 
 func (r *schedReader) Read(p []byte) (int, error) {
@@ -72,6 +75,9 @@ func (r *schedReader) Read(p []byte) (int, error) {
 	}
 	copy(p, r.b[r.off:r.off+n])
 	r.off += n
+	if r.eofWithData && r.off == len(r.b) {
+		return n, io.EOF
+	}
 	return n, nil
 }
 
@@ -115,6 +121,12 @@ func c08Reader(cfg c08Cfg, b []byte, chunk int, env *mc.Env) io.Reader {
 		return bufio.NewReaderSize(&schedReader{b: b, chunk: chunk, env: env}, n)
 	case "seek":
 		return &schedSeeker{schedReader{b: b, chunk: chunk, env: env}}
+	case "plain+eof":
+		return &schedReader{b: b, chunk: chunk, env: env, eofWithData: true}
+	case "seek+eof":
+		return &schedSeeker{schedReader{b: b, chunk: chunk, env: env, eofWithData: true}}
+	case "bufio16+eof":
+		return bufio.NewReaderSize(&schedReader{b: b, chunk: chunk, env: env, eofWithData: true}, 16)
 	case "bytesoff", "section":
 		// library reader types that also implement io.ReaderAt: a *bytes.Reader that was advanced past a
 		// prefix, and an *io.SectionReader over the part of a larger input that holds the stream
@@ -219,9 +231,9 @@ func checkC08(c *mc.Ctx) {
 	two := append(append([]byte{}, one...), EncodePkts(Packetize(PESUnit(0x100, 0xe0, pesPayload(81, 100, c.Seed), 1, false), nil, new(uint8), false))...)
 	streams = append(streams, &Stream{Name: "single-packet", Bytes: one}, &Stream{Name: "two-packets", Bytes: two})
 	var cfgs []c08Cfg
-	for _, kind := range []string{"bytes", "bufio", "plain", "seek", "seekoff", "bytesoff", "section", "bufio16", "bufio64", "bufio192", "bufio193", "bufio200"} {
+	for _, kind := range []string{"bytes", "bufio", "plain", "seek", "seekoff", "bytesoff", "section", "bufio16", "bufio64", "bufio192", "bufio193", "bufio200", "plain+eof", "seek+eof", "bufio16+eof"} {
 		for _, k := range []int{0, 1, 2, 3, 4, 16} {
-			if len(kind) > 5 && kind[:5] == "bufio" && k != 0 && k != 4 {
+			if (len(kind) > 5 && kind[:5] == "bufio" || strings.HasSuffix(kind, "+eof")) && k != 0 && k != 4 {
 				continue
 			}
 			cfgs = append(cfgs, c08Cfg{kind, false, k})
@@ -242,7 +254,7 @@ func checkC08(c *mc.Ctx) {
 			lossPk, lossDa, _ = c08Observe(c08Cfg{"bytes", false, 0}, st.Bytes[2*188:], 0, nil, nil)
 		}
 		expect := func(cfg c08Cfg) ([]string, []string) {
-			if cfg.Auto && cfg.Kind == "plain" {
+			if cfg.Auto && (cfg.Kind == "plain" || cfg.Kind == "plain+eof") {
 				return lossPk, lossDa
 			}
 			return basePk, baseDa
@@ -254,7 +266,7 @@ func checkC08(c *mc.Ctx) {
 			// auto-detection peeks 193 bytes: a bufio.Reader with a smaller buffer cannot provide them and the library says
 			// so (an error, nothing delivered). A loud refusal loses nothing silently; anything delivered without an error
 			// has to be the whole stream
-			smallBufio := cfg.Auto && (cfg.Kind == "bufio16" || cfg.Kind == "bufio64" || cfg.Kind == "bufio192")
+			smallBufio := cfg.Auto && (cfg.Kind == "bufio16" || cfg.Kind == "bufio64" || cfg.Kind == "bufio192" || cfg.Kind == "bufio16+eof")
 			if smallBufio {
 				c.Ev.Class("small-bufio-auto", 1)
 			}
